@@ -41,13 +41,21 @@ func init() {
 				// parts of a version that Compare ignores (build metadata, pypi local label): the
 				// bound of the range and the candidates carry them in different spellings
 				if plain, suff := ignoredPartTemplates(eco); plain != "" {
+					var irs []string
 					for _, op := range opsTable[eco].ops {
 						if eco == "pypi" && (op == "===" || op == "~=") {
 							continue
 						}
+						irs = append(irs, op+suff)
+					}
+					if eco == "nuget" {
+						// interval notation and the comparator list form
+						irs = append(irs, "["+suff+"]", "["+suff+",)", "("+suff+",)", "(,"+suff+"]", "(,"+suff+")", "="+suff+",>=0.0.0", ">="+suff+",<9.9.9")
+					}
+					for _, r := range irs {
 						for _, b := range []string{plain, suff} {
-							id := fmt.Sprintf("C20/cong/%s/%s%s/ignored/%s", eco, op, suff, b)
-							out = append(out, &Config{ID: id, Pkg: zzhPkg, Func: "C20Cong", Args: []ArgSpec{ArgStr(eco), ArgTmpl(op + suff), ArgTmpl(suff), ArgTmpl(b)}})
+							id := fmt.Sprintf("C20/cong/%s/%s/ignored/%s", eco, r, b)
+							out = append(out, &Config{ID: id, Pkg: zzhPkg, Func: "C20Cong", Args: []ArgSpec{ArgStr(eco), ArgTmpl(r), ArgTmpl(suff), ArgTmpl(b)}})
 						}
 					}
 				}
